@@ -425,8 +425,22 @@ def run(ctx, proofs, budgets, check_vals=True, check_degs=True, n_quick=500, n_t
                 weak[k] = o
     ccmodel = constcond_all(M, progs, impl, budgets) if check_vals else {}
     dgraph = deggraph_all(M, progs, impl, budgets) if check_degs else {}
-    dgraph_bad = [{"input": progs[i][1], "curve": progs[i][0], "answer": o} for i, o in dgraph.items() if not o.startswith("(deg-graph-ok")]
-    loop_free = sum(1 for o in dgraph.values() if o == "(deg-graph-ok loop-free)")
+    # answer: "(deg-graph-ok loop-free|loops) (loops-ok)" | "(deg-graph-ok ..) (loops-hyp <unmet conjunct>)" | "(<unmet graph hypothesis>)"
+    # `update-base-assigned` alone (DegLoops.update_bases_fresh false) is NOT a defect of the graph: as defined, that conjunct
+    # fails on every definition that updates one array element-wise twice (`u[0] = a; u[1] = 1;`: the base u.1 of the second
+    # update is assigned by the first); such graphs are counted as outside the loops theorem. Any other unmet conjunct is a violation.
+    def _unmet(o):
+        return o.split("(loops-hyp ", 1)[1].rstrip(")").split() if "(loops-hyp " in o else []
+    dgraph_bad = [{"input": progs[i][1], "curve": progs[i][0], "answer": o} for i, o in dgraph.items()
+                  if not o.startswith("(deg-graph-ok") or (set(_unmet(o)) - {"update-base-assigned"})]
+    loops_outside = sum(1 for o in dgraph.values() if o.startswith("(deg-graph-ok") and _unmet(o) == ["update-base-assigned"])
+    loop_free = sum(1 for o in dgraph.values() if o.startswith("(deg-graph-ok loop-free)"))
+    loops_thm = sum(1 for o in dgraph.values() if o.startswith("(deg-graph-ok") and o.endswith("(loops-ok)"))
+    loops_thm_with_loops = sum(1 for o in dgraph.values() if o == "(deg-graph-ok loops) (loops-ok)")
+    loops_unmet = {}
+    for o in dgraph.values():
+        for w in _unmet(o):
+            loops_unmet[w] = loops_unmet.get(w, 0) + 1
     # the hypotheses of the budget theorems (C20_mirror_validated_at_every_budget, C20_propagate_completes), evaluated on
     # the graph the implementation hands to propagation (budget 0/0: nothing has run yet)
     hyp = {"checked": 0, "clean": 0}
@@ -521,7 +535,9 @@ def run(ctx, proofs, budgets, check_vals=True, check_degs=True, n_quick=500, n_t
         failing += escalated["failing"]
     return {"weak": {"rejected_by_djust_cfg": len(weak), "of_these_accepted_by_djust_cfg_le": sum(1 for o in weak.values() if o == "(justified)")},
             "valstats": dict(VALSTATS), "dgraph": {"evaluated": len(dgraph), "unmet": len(dgraph_bad), "graphs_covered_by_loop_free_theorem": loop_free,
-                                                   "graphs_with_loops_covered_by_same_path_theorem_and_oracle_only": len(dgraph) - len(dgraph_bad) - loop_free}, "dgraph_bad": dgraph_bad, "features": features, "degstats": dict(DEGSTATS), "check_degs": check_degs, "hyp": hyp, "hyp_bad": hyp_bad, "escalated": None if escalated is None else {k: v for k, v in escalated.items() if k != "failing"}, "cc_seen": cc_seen, "cc_missing": cc_missing, "disagreements": disagreements, "failing": failing, "unjustified": unjustified, "validated": len(valid),
+                                                   "graphs_covered_by_loops_theorem": loops_thm, "of_these_graphs_with_loops": loops_thm_with_loops,
+                                                   "unmet_conjuncts_of_the_loops_theorem": loops_unmet,
+                                                   "graphs_outside_the_loops_theorem_because_an_array_is_updated_element_wise_twice": loops_outside}, "dgraph_bad": dgraph_bad, "features": features, "degstats": dict(DEGSTATS), "check_degs": check_degs, "hyp": hyp, "hyp_bad": hyp_bad, "escalated": None if escalated is None else {k: v for k, v in escalated.items() if k != "failing"}, "cc_seen": cc_seen, "cc_missing": cc_missing, "disagreements": disagreements, "failing": failing, "unjustified": unjustified, "validated": len(valid),
             "dvalidated": sum(1 for o in dvalid.values() if o == "(justified)"), "darrays": sum(1 for k, o in dvalid.items() if o == "(justified)" and any(t in impl[k] for t in ("(access ", "(update ", "(array "))), "status": status, "claims": claims,
             "nontrivial": len(nontrivial), "evaluations": evaluations, "programs": len(progs),
             "exercised_value_claims": exercised_v, "exercised_degree_claims": exercised_d,
@@ -595,11 +611,27 @@ def verdict(ctx, proofs, r, kinds, known_classes, extra_cov=None):
                           {"broken": "hypotheses clean_cfg / ldefs_unique / deg_wf of C20_mirror_validated_at_every_budget, C20_propagate_completes and the degree theorems", "first": r["hyp_bad"][0]}, no_input=True)
         elif r.get("dgraph_bad"):
             d = r["dgraph_bad"][0]
-            ctx.violation("a graph / immediate-dominator table produced by the implementation does not meet the hypotheses of the table-free degree theorems: %s (%d cases; "
-                          "`(graph-inconsistent)`: b_index is not the position or b_preds is not the inverse of b_succs or a block is unreachable - a matter of C12; "
-                          "`(idom-not-the-dominator-table)`: the table differs from the one Model.Dom computes - a matter of C15; `(local-assigned-twice)`: C14)" % (d["answer"], len(r["dgraph_bad"])),
-                          {"broken": "hypotheses DegGraph.graph_consistent / DegGraph.idom_is_dominator_table of C07_decides_is_dominance_control_dependence and "
-                                     "C07_validated_graph_degrees_true_table_free", "first": d}, no_input=True)
+            if "(loops-hyp " in d["answer"]:
+                w = [y for y in d["answer"].split("(loops-hyp ", 1)[1].rstrip(")").split() if y != "update-base-assigned"][0]
+                what = {"no-version-maps": "SsaCheck.compute_infos gives no version maps for the graph and the implementation's dominator table (a C14-type finding: the SSA validator "
+                                           "cannot even be run; reported here because the degree theorem for graphs with loops needs the maps)",
+                        "infos-not-ok": "SsaCheck.infos_ok fails on the version maps of the graph (a C14-type finding: the SSA graph is not valid; reported here because it is a "
+                                        "hypothesis of C07_loops_runs_represented)",
+                        "targets-not-versioned": "DegLoops.targets_versioned: a statement assigns a local without a version (a C14-type finding)",
+                        "update-base-assigned": "DegLoops.update_bases_fresh: the array read by the first element-wise update of a never-assigned array is assigned by a statement",
+                        "future-version": "DegLoops.no_future_version: the version current at the exit of a block is one that a block with a larger index assigns (a C14-type finding: "
+                                          "the renaming does not follow the dominator tree / dominators do not have smaller indices; reported under %s because it is a hypothesis of "
+                                          "the degree theorem for graphs with loops)" % ctx.prop,
+                        "loops_ok-false": "DegLoops.loops_ok is false although its conjuncts hold one by one (driver and definition out of step)"}.get(w, w)
+                ctx.violation("a graph produced by the implementation does not meet a hypothesis of C07_loops_runs_represented / C07_loops_runs_claims_true (diverging runs in graphs "
+                              "with loops): %s (%d cases in all: %s)" % (what, len(r["dgraph_bad"]), r.get("dgraph", {}).get("unmet_conjuncts_of_the_loops_theorem")),
+                              {"broken": "hypothesis `%s` of C07_loops_runs_represented (SsaCheck.infos_ok / DegLoops.loops_ok)" % w, "first": d}, no_input=True)
+            else:
+                ctx.violation("a graph / immediate-dominator table produced by the implementation does not meet the hypotheses of the table-free degree theorems: %s (%d cases; "
+                              "`(graph-inconsistent)`: b_index is not the position or b_preds is not the inverse of b_succs or a block is unreachable - a matter of C12; "
+                              "`(idom-not-the-dominator-table)`: the table differs from the one Model.Dom computes - a matter of C15; `(local-assigned-twice)`: C14)" % (d["answer"], len(r["dgraph_bad"])),
+                              {"broken": "hypotheses DegGraph.graph_consistent / DegGraph.idom_is_dominator_table of C07_decides_is_dominance_control_dependence and "
+                                         "C07_validated_graph_degrees_true_table_free", "first": d}, no_input=True)
         elif r.get("cc_missing") and "finding" in kinds:
             d = r["cc_missing"][0]
             ctx.violation("correspondence Model.ConstCond vs constant_conditional.rs broken: %d reports the mirror expects are not produced" % len(r["cc_missing"]),
@@ -659,7 +691,13 @@ def verdict(ctx, proofs, r, kinds, known_classes, extra_cov=None):
         cov["dominator_table_hypotheses"] = dict(r.get("dgraph", {}), rule="DegGraph.graph_consistent, idom_is_dominator_table, single_assignment_b on the real SSA graph and "
                                                                            "the real immediate-dominator table of every lifted definition (unmet = violation); forward_b (loop-free) "
                                                                            "decides whether C07_loop_free_graph_claims_true (diverging runs proved represented) applies; its further "
-                                                                           "hypothesis `edge lists of the lifted skeleton` is compared by the liftfull engine (C13), not here")
+                                                                           "hypothesis `edge lists of the lifted skeleton` is compared by the liftfull engine (C13), not here; "
+                                                                           "SsaCheck.infos_ok (on compute_infos of the graph and the real table) and the four conjuncts of "
+                                                                           "DegLoops.loops_ok (single_assignment_b, targets_versioned, update_bases_fresh, no_future_version) are the "
+                                                                           "graph hypotheses of C07_loops_runs_represented / C07_loops_runs_claims_true (diverging runs in graphs WITH "
+                                                                           "loops, same loop-header entries): graphs_covered_by_loops_theorem; an unmet one is a violation naming it, except update_bases_fresh alone: as "
+                                                                           "defined it is false for every graph that updates one array element-wise twice (the base of the second update "
+                                                                           "is assigned by the first), which is no defect of the graph: counted as outside the theorem")
     if r.get("escalated"):
         cov["escalated_search_after_broken_correspondence"] = r["escalated"]
     if "degree" in kinds:
